@@ -94,6 +94,89 @@ def c10_exhaustive(max_len: int) -> list[dict]:
     return units
 
 
+def small_shapes(max_nodes: int = 3, labels="AB"):
+    """All rooted trees with <= max_nodes nodes over the labels, as
+    (label, (sorted children...))."""
+    import itertools
+
+    by_n = {1: [(x, ()) for x in labels]}
+    for n in range(2, max_nodes + 1):
+        out = set()
+        # children multisets whose sizes sum to n - 1
+        def parts(total, maxpart):
+            if total == 0:
+                yield ()
+                return
+            for p in range(min(total, maxpart), 0, -1):
+                for rest in parts(total - p, p):
+                    yield (p,) + rest
+        for part in parts(n - 1, n - 1):
+            for kids in itertools.product(*[by_n[p] for p in part]):
+                for x in labels:
+                    out.add((x, tuple(sorted(kids))))
+        by_n[n] = sorted(out)
+    return [t for n in sorted(by_n) for t in by_n[n]]
+
+
+def c09_exhaustive(tier: str) -> list[dict]:
+    """Small-scope exhaustive part of C09: every unordered pair of call-tree
+    shapes with <= 3 spans over two labels (same-shape pairs with the
+    sibling order reversed), under one and under two workflow names, batch
+    sizes 1/2/3/large, parents-first and children-first delivery."""
+    shapes = small_shapes(3)
+    units = []
+    t0 = ws.T0 + 137
+
+    def spans_of(shape, tid, name, base, rev):
+        out = []
+
+        def emit(node, parent, st):
+            sid = f"{tid}-{len(out)}"
+            out.append(dict(id=sid, trace=tid, type=node[0], parent=parent,
+                            st=st, en=st + 50, name=name, app="app"))
+            kids = list(node[1])
+            if rev:
+                kids.reverse()
+            for j, kd in enumerate(kids):
+                emit(kd, sid, st + 1 + j)
+
+        emit(shape, None, base)
+        return out
+
+    anchor = [dict(id="anchor-r", trace="anchor", type="R", parent=None,
+                   st=t0, en=t0 + ws.HORIZON, name="WA", app="app"),
+              dict(id="anchor-c", trace="anchor", type="X",
+                   parent="anchor-r", st=t0 + 1000, en=t0 + 2000, name="WA",
+                   app="app")]
+    bss = [1, 2, 3, 1000] if tier == "thorough" else [1, 2, 1000]
+    for i, a in enumerate(shapes):
+        for j in range(i, len(shapes)):
+            b = shapes[j]
+            for names in ([("WA", "WA")] + ([("WA", "WB")] if i == j
+                                            else [])):
+                for bs in bss:
+                    for mode in ("inorder", "children-first"):
+                        ta = spans_of(a, "t0", names[0], t0 + 10**6, False)
+                        tb = spans_of(b, "t1", names[1], t0 + 2 * 10**6,
+                                      True)
+                        stream = anchor + ta + tb
+                        if mode == "children-first":
+                            stream = list(reversed(stream))
+                        scen = {
+                            "id": f"C09:exh:{i}:{j}:{names[1]}:{bs}:{mode}",
+                            "focus": "C09", "batch_size": bs,
+                            "time_buffer": 0, "mode": mode,
+                            "processes": [{"deliver": stream}],
+                            "kinds": ["anchor", "ok", "ok"],
+                            "pipeline": True, "stream_filter": {},
+                            "filter_names": ["WA"]}
+                        units.append({"kind": "store", "prop": "C09",
+                                      "idx": -1, "scenario": scen,
+                                      "hash_class": len(units) % 16,
+                                      "exhaustive": True})
+    return units
+
+
 def build_units(prop, tier, seed, scale, findings):
     n = scaled(SIZES[tier], scale)
     if prop == "C09":
@@ -107,6 +190,8 @@ def build_units(prop, tier, seed, scale, findings):
     units = []
     if prop == "C10":
         units += c10_exhaustive(4 if tier == "quick" else 6)
+    if prop == "C09":
+        units += c09_exhaustive(tier)
     for i in dict.fromkeys(idxs):
         u = {"kind": "store", "prop": prop, "idx": i,
              "hash_class": hash_class_of(i),
@@ -261,7 +346,7 @@ def main(prop, argv=None):
                         for p in scen["processes"]],
                     "removed_by_cleaning": r["removed"],
                     "log_digest": r["log_digest"]})
-            if prop == "C09":
+            if prop == "C09" and u["idx"] >= 0:
                 shape_sets.setdefault(u["idx"], set()).add(
                     json.dumps(r["shapes"], sort_keys=True))
             for cls in classes(prop, r):
